@@ -143,6 +143,8 @@ pub struct Ctrl {
 }
 
 thread_local! {
+	/// `Some(tid)`: this thread is a worker of a T2 (multi-threaded, scheduled) run
+	pub static T2_TID: std::cell::Cell<Option<usize>> = const { std::cell::Cell::new(None) };
 	pub static CTRL: RefCell<Ctrl> = RefCell::new(Ctrl::default());
 	/// reads the current poison flags of the case's `Poisonable`s (set by the interpreter)
 	pub static POISON_PROBE: RefCell<Option<Box<dyn Fn() -> Vec<bool>>>> = RefCell::new(None);
@@ -152,7 +154,14 @@ pub struct FaultPanic;
 pub struct UserPanic;
 pub struct HarnessStop;
 
+fn t2() -> Option<usize> {
+	T2_TID.with(|c| c.get())
+}
+
 pub fn log(s: String) {
+	if let Some(t) = t2() {
+		return crate::t2::log(t, s);
+	}
 	CTRL.with(|c| {
 		let mut c = c.borrow_mut();
 		if c.dead.is_none() {
@@ -170,8 +179,12 @@ enum Outcome {
 	Stop,
 }
 
-fn raw_op(addr: usize, kind: Kind) -> bool {
-	// sample the poison flags first (the probe must not run while CTRL is borrowed)
+/// sample the poison flags and report changes (at every raw operation and at `clear_poison`)
+pub fn sample_poison() {
+	if t2().is_some() {
+		return;
+	}
+	// (the probe must not run while CTRL is borrowed)
 	let skip = CTRL.with(|c| {
 		let c = c.borrow();
 		c.dead.is_some() || c.probe
@@ -190,6 +203,13 @@ fn raw_op(addr: usize, kind: Kind) -> bool {
 			});
 		}
 	}
+}
+
+fn raw_op(addr: usize, kind: Kind) -> bool {
+	if let Some(t) = t2() {
+		return crate::t2::raw_op(t, addr, kind);
+	}
+	sample_poison();
 	let out = CTRL.with(|c| {
 		let mut c = c.borrow_mut();
 		if c.dead.is_some() {
@@ -292,6 +312,9 @@ fn raw_op(addr: usize, kind: Kind) -> bool {
 
 /// Is lock `x` held by the client in a mode that allows the access? (audit for data accesses)
 pub fn holds_for_access(x: usize, write: bool) -> bool {
+	if let Some(t) = t2() {
+		return crate::t2::holds_for_access(t, x, write);
+	}
 	CTRL.with(|c| {
 		let c = c.borrow();
 		let st = &c.table[x];
@@ -312,7 +335,11 @@ pub struct Val(pub u64);
 impl std::fmt::Debug for Val {
 	fn fmt(&self, f: &mut std::fmt::Formatter<'_>) -> std::fmt::Result {
 		let addr = self as *const _ as usize;
-		let x = CTRL.with(|c| c.borrow().ranges.iter().find(|r| r.0 <= addr && addr < r.1).map(|r| r.2));
+		let x = if t2().is_some() {
+			crate::t2::lookup(addr)
+		} else {
+			CTRL.with(|c| c.borrow().ranges.iter().find(|r| r.0 <= addr && addr < r.1).map(|r| r.2))
+		};
 		if let Some(x) = x {
 			let bad = !holds_for_access(x, false);
 			log(format!("r{x}={}{}", self.0, if bad { "?" } else { "" }));
